@@ -116,7 +116,7 @@ def run_tlc(module: str, cfg: Path, *, workers: int | str = "auto", timeout: int
         shutil.rmtree(meta, ignore_errors=True)
     wall = time.time() - t0
     out = p.stdout
-    res = TLCResult(ok=False, wall_s=wall, output=out if keep_output else out[-20000:])
+    res = TLCResult(ok=False, wall_s=wall, output=out if keep_output else out[-60000:])
     for m in _RE_STATES.finditer(out):
         res.generated, res.distinct = int(m.group(1)), int(m.group(2))
     m = _RE_DEPTH.search(out)
